@@ -108,7 +108,9 @@ pub fn run(id: &'static str, args: &[String]) -> ! {
         let without = forkdfs::explore(&mut b, &Opts { depth: d2, dedup: false, ..opts.clone() }, &scratch);
         let _ = std::fs::remove_dir_all(&scratch);
         ctx.set("dedup_differential", json!({"depth": d2, "states_with_pruning": with.states, "states_without_pruning": without.states, "transitions_without_pruning": without.transitions}));
-        if with.states != without.states {
+        if with.capped || without.capped {
+            ctx.assume("the pruning differential was cut by its time budget and is not evaluated in this run");
+        } else if with.states != without.states {
             ctx.machinery_error(format!("canonicalisation is unsound: {} states with pruning, {} without at depth {d2}", with.states, without.states));
         }
     }
